@@ -549,7 +549,12 @@ const nOps = 31
 var renderOn = false
 var lastValue any
 
+var noLastValue bool
+
 func render(v any, err error) {
+	if noLastValue {
+		return
+	}
 	lastValue = v
 	if !renderOn || err != nil {
 		return
